@@ -77,8 +77,9 @@ type c04Case struct {
 	Body    []string `json:"body,omitempty"`   // statements
 	SrcGen  string   `json:"src_gen,omitempty"`
 	Req     c04Req   `json:"req"`
-	NonTerm bool     `json:"nonterm,omitempty"` // the program cannot complete: any non-error status is wrong
+	NonTerm bool     `json:"nonterm,omitempty"` // by the language definition the program cannot complete (documentation; not judged)
 	NoVMRaw bool     `json:"no_vm_raw,omitempty"`
+	SkipVM  bool     `json:"skip_vm,omitempty"` // compiled mode not run for this case (quick tier, see c04LoopLayer)
 	Group   string   `json:"group,omitempty"` // root-cause tag used in hang/memory keys
 	Lambda  string   `json:"lambda,omitempty"`
 	Async   bool     `json:"async,omitempty"`
@@ -135,7 +136,7 @@ func (c *c04Case) batchable() bool {
 		return false
 	}
 	switch c.Layer {
-	case "deep", "loops", "async", "providers":
+	case "deep", "loops", "async", "providers", "cyclic":
 		return false
 	}
 	for _, l := range c.Inj {
@@ -324,7 +325,7 @@ func c04Protect(f func()) (pv any, stack string) {
 	return
 }
 
-var c04DigitsRe = regexp.MustCompile(`[0-9]+`)
+var c04DigitsRe = regexp.MustCompile(`-?[0-9]+`)
 
 func c04PanicClass(msg string) string {
 	known := []string{
@@ -666,12 +667,9 @@ func (rt *c04Runtime) judgeHTTP(c *c04Case, step int, ev c04Eval, out c04HTTPOut
 		fs = append(fs, c04Finding{Kind: kind, Key: key, Step: step, Case: *c,
 			Desc: desc + " | program: " + c.show() + " | request: " + c.Req.show()})
 	}
-	failed := (ev.Ran && ev.Failed) || c.NonTerm
+	failed := ev.Ran && ev.Failed
 	if failed {
 		errText := ev.Err
-		if !ev.Ran {
-			errText = "(program cannot terminate successfully)"
-		}
 		cls := c04ErrClass(errText)
 		if out.Status < 400 || out.Status > 599 {
 			add("status", fmt.Sprintf("success-status-on-failure/%s/%d/%s", eng, out.Status, cls),
@@ -853,6 +851,10 @@ func (rt *c04Runtime) httpPhase(c *c04Case, ord, step int, en c04Engines) (fs []
 	ev := en.evI
 	if !force {
 		ev = en.evV
+		if c.SkipVM {
+			rt.count("vm/http-skipped-in-quick-tier")
+			return
+		}
 		if en.noteV == "compile-error" || en.noteV == "injection-forces-interpreter" {
 			rt.count("vm/http-not-compiled(interpreter serves it)")
 			return
@@ -1116,6 +1118,15 @@ func c04OpenSource(p vk.Params, replayFile string) c04Source {
 		return c04Source{n: len(list), at: func(k int) c04Case { return list[k] }}
 	}
 	layers := c04Layers(p.Thorough)
+	if only := os.Getenv("C04_ONLY_LAYER"); only != "" { // exploration aid
+		var sel []c04Layer
+		for _, l := range layers {
+			if l.Name == only {
+				sel = append(sel, l)
+			}
+		}
+		layers = sel
+	}
 	total := c04Total(layers)
 	n := p.NShard
 	if n < 1 {
@@ -1214,6 +1225,7 @@ func c04Worker(p vk.Params) {
 			}
 			var fs []c04Finding
 			var exit bool
+			t0 := time.Now()
 			if j-i == 1 {
 				rt.idx = lo + i
 				fs, exit = rt.runCase(&cs[i], lo+i, -1)
@@ -1226,7 +1238,10 @@ func c04Worker(p vk.Params) {
 				}
 				fs, exit = rt.runBatch(ptrs, ords)
 			}
+			rt.counters["wall-ms/"+cs[i].Layer] += time.Since(t0).Milliseconds()
+			t0 = time.Now()
 			report(fs, exit)
+			rt.counters["wall-ms/shrinking"] += time.Since(t0).Milliseconds()
 			if exit {
 				// a goroutine keeps spinning: this process must be replaced; the case that caused it is not run again
 				st := c04StepParse
@@ -1435,21 +1450,40 @@ func c04CrashFinding(c *c04Case, step int, stderr string) c04Finding {
 			break
 		}
 	}
-	fn := "unknown"
+	if strings.Contains(msg, "stack overflow") {
+		return c04HangFinding(c, "stack overflow", step, "worker died")
+	}
+	if strings.Contains(msg, "out of memory") || strings.Contains(msg, "cannot allocate memory") {
+		return c04HangFinding(c, "out of memory", step, "worker died")
+	}
+	fn, creator := "unknown", ""
 	if at >= 0 {
-		// first goroutine block after the message is the crashing one
-		rest := strings.Join(lines[at:], "\n")
-		fn = c04CrashFrame(rest)
+		// the first goroutine block after the message is the crashing one
+		fn, creator = c04CrashFrame(strings.Join(lines[at:], "\n"))
 	}
 	eng := c04StepEngine(step)
-	return c04Finding{Kind: "crash", Key: fmt.Sprintf("crash/%s/%s/%s", eng, fn, c04PanicClass(msg)), Step: step, Case: *c,
-		Desc: fmt.Sprintf("%s: the process running the evaluation died (%s) in %s — not recoverable by the handler: the server process is gone | program: %s | request: %s",
-			c04StepNames[step], c04Trunc(msg, 200), fn, c.show(), c.Req.show())}
+	key := fmt.Sprintf("crash/%s/%s/%s", eng, fn, c04PanicClass(msg))
+	where := ""
+	if creator != "" {
+		key += "/on-goroutine-of:" + creator
+		where = " on a goroutine started by " + creator + " (no recover there: the panic cannot be contained by the handler)"
+	}
+	return c04Finding{Kind: "crash", Key: key, Step: step, Case: *c,
+		Desc: fmt.Sprintf("%s: the process running the evaluation died (%s) in %s%s - the server process is gone | program: %s | request: %s",
+			c04StepNames[step], c04Trunc(msg, 200), fn, where, c.show(), c.Req.show())}
 }
 
-func c04CrashFrame(dump string) string {
+func c04CrashFrame(dump string) (fn, creator string) {
+	fn = "unknown"
 	lines := strings.Split(dump, "\n")
 	in := false
+	trim := func(l string) string {
+		f := strings.TrimPrefix(l, c04ModPrefix)
+		if i := strings.LastIndex(f, "("); i > 0 {
+			f = f[:i]
+		}
+		return regexp.MustCompile(`\.func[0-9]+(\.[0-9]+)*$`).ReplaceAllString(f, "")
+	}
 	for _, l := range lines {
 		if strings.HasPrefix(l, "goroutine ") {
 			if in {
@@ -1458,41 +1492,55 @@ func c04CrashFrame(dump string) string {
 			in = true
 			continue
 		}
-		if !in || !strings.HasPrefix(l, c04ModPrefix) {
+		if !in {
+			continue
+		}
+		if strings.HasPrefix(l, "created by ") {
+			cr := strings.TrimPrefix(l, "created by ")
+			if i := strings.Index(cr, " in goroutine"); i > 0 {
+				cr = cr[:i]
+			}
+			if strings.HasPrefix(cr, c04ModPrefix) && !strings.Contains(cr, ".c04") {
+				creator = regexp.MustCompile(`\.func[0-9]+(\.[0-9]+)*$`).ReplaceAllString(strings.TrimPrefix(cr, c04ModPrefix), "")
+			}
+			break
+		}
+		if fn != "unknown" || !strings.HasPrefix(l, c04ModPrefix) {
 			continue
 		}
 		if strings.Contains(l, ".c04") || strings.Contains(l, "TestVerif_C04") || strings.Contains(l, "internal/verif") {
 			continue
 		}
-		f := strings.TrimPrefix(l, c04ModPrefix)
-		if i := strings.LastIndex(f, "("); i > 0 {
-			f = f[:i]
-		}
-		f = regexp.MustCompile(`\.func[0-9]+(\.[0-9]+)*$`).ReplaceAllString(f, "")
-		return f
+		fn = trim(l)
 	}
-	return "unknown"
+	return
 }
 
+// a case that had to be stopped (CPU watchdog, blocked, memory cap) or that ended the process with a stack
+// overflow / out of memory: one kind ("runaway"), because which limit trips first is a matter of timing
 func c04HangFinding(c *c04Case, kind string, step int, detail string) c04Finding {
 	eng := c04StepEngine(step)
 	g := c.Group
 	if g == "" {
 		g = c.Layer
 	}
-	k := "hang"
 	what := "the evaluation does not return"
-	if kind == "memory" {
-		k = "memory"
+	switch kind {
+	case "memory":
 		what = "the evaluation allocates without bound (the Go runtime aborts the whole process when memory runs out)"
-	} else if kind == "hang-blocked" {
+	case "hang-blocked":
 		what = "the evaluation is blocked forever"
+	case "stack overflow":
+		what = "the evaluation recurses until the goroutine stack limit: fatal error: stack overflow, which no recover can catch - the server process is gone"
+	case "out of memory":
+		what = "the evaluation allocates until the Go runtime aborts: fatal error: out of memory - the server process is gone"
 	}
 	lvl := "engine"
 	if step == c04StepInterpHTTP || step == c04StepVMHTTP {
 		lvl = "http"
 	}
-	return c04Finding{Kind: k, Key: fmt.Sprintf("%s/%s/%s/%s", k, eng, lvl, g), Step: step, Case: *c,
+	_ = lvl
+	return c04Finding{Kind: "runaway", Key: fmt.Sprintf("runaway/%s/%s", eng, g), Step: step, Case: *c,
 		Desc: fmt.Sprintf("%s: %s (%s) | program: %s | request: %s", c04StepNames[step], what, detail, c.show(), c.Req.show())}
 }
 
